@@ -256,6 +256,33 @@ def r5_defaulted_delimiters_not_read(ctx):
     yield Ob('input path reads no defaulted delimiter attribute of a Segment', n_reads == 0, 'pyx12/', '' if not n_reads else '%d read(s)' % n_reads)
 
 
+def r7_split_at_the_declared_separator(ctx):
+    """a composite is split at the separator it is given and nowhere else, whatever the text looks like: Composite.__init__
+    decided by constant propagation for digit-only, mixed and empty component texts under the separators ':', '.', '-',
+    '>' and '\\' - the components are exactly text.split(separator).  (A shortcut for "numbers" that treats '.' or '-'
+    as part of a number makes the result depend on the separator the document declares.)"""
+    from ..absint import traces, helper_oracles, NotClosedTest
+    fn = ctx.func('segment', 'Composite.__init__')
+    g = ctx.cfg(fn)
+    bad = []
+    runs = 0
+    for sep in (':', '.', '-', '>', '\\'):
+        for parts in (('12', '', '1'), ('1', '2', '3'), ('AB', 'C'), ('12',), ('',), ('1', ''), ('X9', '1'), ('20200101', '20200131')):
+            text = sep.join(parts)
+            funcs = helper_oracles(ctx, 'segment', {'Element': lambda t: ('Element', t)})
+            try:
+                res = traces(g, {'ele_str': text, 'subele_term': sep}, lambda c: None, funcs=funcs)
+            except NotClosedTest as e:
+                raise AnalysisError('Composite.__init__ cannot be decided for %r with separator %r: %s' % (text, sep, e))
+            runs += 1
+            want = tuple(('Element', t) for t in text.split(sep))
+            for _tr, e_ in res:
+                got = dict(e_).get('self.elements')
+                if got != want and len(bad) < 3:
+                    bad.append('%r with component separator %r becomes %s, not %s' % (text, sep, [x[1] if isinstance(x, tuple) else x for x in (got or ())], list(text.split(sep))))
+    yield Ob('segment:Composite.__init__ splits at the given separator only', not bad, ctx.floc(fn), '' if not bad else bad[0], note='%d combinations' % runs)
+
+
 def r6_charset_admits_every_delimiter_choice(ctx):
     """any character of the declared set may be chosen as component separator and is then validated as the value of
     ISA16; a character-set recogniser that rejects one member of its set makes the result depend on that choice.
@@ -270,6 +297,7 @@ RULES = [
     Rule('C12.R2', 'acknowledgement delimiters are literals; the input terminators flow nowhere in the visitors', r2_ack_delimiters, floor=7),
     Rule('C12.R3', 'delimiter provenance, CR/LF strip set, ISA not sub-split (shared with C01.R4-R6)', r3_shared_with_c01, floor=18),
     Rule('C12.R4', 'validation never inspects re-formatted text', r4_parsed_values_only, floor=1),
+    Rule('C12.R7', 'Composite.__init__ splits exactly at the separator given, for every separator and text shape (constant propagation)', r7_split_at_the_declared_separator, floor=1),
     Rule('C12.R6', 'shared with C13.R1: the character-set recognisers accept every member of their set (any may be a separator, checked as ISA16)', r6_charset_admits_every_delimiter_choice, floor=15),
     Rule('C12.R5', 'no delimiter attribute of a Segment that the reader leaves at its literal default is read on the input path', r5_defaulted_delimiters_not_read, floor=1),
 ]
